@@ -324,6 +324,13 @@ def prepare_existing(root: Path, case: dict, spec_path: Path, other_spec: Path) 
     elif ex == "coredifferent":
         p = core_dir / "exceptions.py"
         p.write_text(p.read_text() + "\n# local edit\n")
+    elif ex == "corealiases":     # the ONLY difference is inside the core directory: edited exception_aliases.py
+        p = core_dir / "exception_aliases.py"
+        p.write_text(p.read_text() + "\n# local edit\n")
+    elif ex == "coredeleted":     # ... a runtime file of the core is missing
+        (core_dir / "pagination.py").unlink()
+    elif ex == "coreextra":       # ... a stale extra module in the core
+        (core_dir / "leftover.py").write_text("# stale\n")
     elif ex == "partial":
         shutil.rmtree(out_dir / "models")
         (out_dir / "client.py").unlink()
@@ -575,6 +582,9 @@ def allowed_rel(case: dict, rel: str) -> bool:
     return False
 
 
+DIFFERING = ("different", "coredifferent", "corealiases", "coredeleted", "coreextra", "partial", "otherspec", "empty")
+
+
 def oracle(case_obs: dict) -> list[str]:
     case, o = case_obs["input"], case_obs["obs"]
     fails: list[str] = []
@@ -593,12 +603,10 @@ def oracle(case_obs: dict) -> list[str]:
         # result: match -> success, difference or failure -> raises
         injected = case["fail_at"] is not None and (o["outcome"] == "fail:" + case["fail_at"] or (
             case["fail_at"].startswith("IO:") and o["outcome"] == "fail:IO"))
-        if str(case["fail_at"]).startswith("Write#") and o["outcome"] == "ok" and case["existing"] in (
-                "different", "coredifferent", "partial", "otherspec", "empty"):
+        if str(case["fail_at"]).startswith("Write#") and o["outcome"] == "ok" and case["existing"] in DIFFERING:
             fails.append("existing output differs from what would be generated but generation did not raise")
         if case["fail_at"] is None or (case["fail_at"].startswith("IO:") and o["outcome"] != "fail:IO"):
-            if case["existing"] in ("different", "coredifferent", "partial", "otherspec", "empty") \
-                    and o["outcome"] not in ("diff", "invalid"):
+            if case["existing"] in DIFFERING and o["outcome"] not in ("diff", "invalid"):
                 fails.append("existing output differs from what would be generated but generation did not raise")
             if case["existing"] == "equal" and not case["post"] and o["outcome"] != "ok":
                 fails.append("existing output matches what would be generated but generation raised")
@@ -683,12 +691,17 @@ LAYOUTS = [  # (output package, core package) — embedded / sibling / nested / 
     ("c1", "core"), ("c1", "shared.core"),
     ("a.b.client", "a.core"), ("a.client", "a.client.rt"), ("a.client", "a.b.core"),
     ("c1", "c1x.core"), ("pkg.api", "x.y.z.core"),
+    # sibling cores whose DOTTED NAME merely begins with the output package name
+    ("c1", "c1_core"), ("pkg.api", "pkg.api_core"),
 ]
+PREFIX_SHARING = [("c1", "c1x.core"), ("c1", "c1_core"), ("pkg.api", "pkg.api_core")]
+CORE_ONLY = ["coredifferent", "corealiases", "coredeleted", "coreextra"]
 # base names for the inner fault injection (model modules are written as <m>.tmp and renamed, hence pet.tmp)
 IO_NAMES = ["client.py", "mock_pets.py", "mock_client.py", "pets.py", "pet.tmp", "exception_aliases.py",
             ".exception_registry.json", "http_transport.py", "plugins.py", "__init__.py", "py.typed", "config.py",
             "README.md", "mocks", "endpoints", "models", "auth", "core"]
-EXISTING = ["none", "empty", "equal", "different", "coredifferent", "partial", "otherspec"]
+EXISTING = ["none", "empty", "equal", "different", "coredifferent", "partial", "otherspec", "corealiases", "coredeleted",
+            "coreextra"]
 FAILS = [None] + STAGES
 
 
@@ -710,7 +723,7 @@ def gen_cases(rng, thorough: bool) -> list[dict]:
                         cases.append(mk(out, core, force, ex, fa, spec=rng.randint(0, 1)))
     else:
         for force in (False, True):
-            for ex in EXISTING:
+            for ex in EXISTING[:7]:   # the core-only variants have their own block below
                 for fa in FAILS:
                     out, core = rng.choice(LAYOUTS)
                     cases.append(mk(out, core, force, ex, fa, spec=rng.randint(0, 1)))
@@ -718,6 +731,13 @@ def gen_cases(rng, thorough: bool) -> list[dict]:
             for force in (False, True):
                 for ex in ("none", "equal", "different"):
                     cases.append(mk(out, core, force, ex, None))
+    # the ONLY difference lies inside the core directory: sibling cores, in particular those whose name shares a
+    # prefix with the output package; non-force must raise (and touch nothing), force must stay contained
+    for (out, core) in PREFIX_SHARING + [("c1", "shared.core"), ("a.b.client", "a.core")]:
+        for ex in CORE_ONLY:
+            cases.append(mk(out, core, False, ex, None, spec=rng.randint(0, 1)))
+            if thorough:
+                cases.append(mk(out, core, True, ex, None, spec=rng.randint(0, 1)))
     # failures in the middle of a stage (N-th FileManager.write_file raises): judged by the oracle only
     for _ in range(120 if thorough else 30):
         out, core = rng.choice(LAYOUTS)
